@@ -1,5 +1,5 @@
 """C01 -- scheduler core (work in progress: metadata filled in below)."""
-from props.common import other_tasks, contract_tasks, lemma_tasks, TRUSTED_CORE
+from props.common import other_tasks, contract_tasks, lemma_tasks, TRUSTED_CORE, SCHED_ASSUMPTIONS
 
 PROPERTY = "C01"
 
@@ -12,11 +12,11 @@ def tasks(tier):
 
 
 TRUSTED_BASE = TRUSTED_CORE
-ASSUMPTIONS = []
-NOT_COVERED = []
-LEVEL_TEXT = "Ghost assertions C01(a)/(b) at BEGIN (the point where a step's inputs are read) are proved from a global invariant (I0-I5, J', K) that every atomic region of sim_process and its coroutines, advance_progress, schedule_step and notify_dependencies preserve -- for any number of simulators, any topology, any reply values and every interleaving (cut rule at each await)."
+ASSUMPTIONS = SCHED_ASSUMPTIONS
+NOT_COVERED = ["'finished (step and output retrieval)' is the ghost field in_step / the BG ghost invariant of the model, not an observation of a real run", 'the closure cache_triggering_ancestors (used by advance_progress for event-triggered consumers) is checked by a bounded stand-in only']
+LEVEL_TEXT = "Ghost assertions C01(a)/(b) at BEGIN (the point where a step's inputs are read) are proved from a global invariant (I0-I5, J', K) that every atomic region of sim_process and its coroutines, advance_progress, schedule_step and notify_dependencies preserve -- for any number of simulators, any topology, any reply values and every interleaving (cut rule at each await); connect_one is proved to store the MINIMUM delay per simulator pair, which is what the wait uses."
 DESIGN_REF = "DESIGN.md section 8 (C01)"
-LEVEL_NOTE = 'Trusted: pyvc encoder (Python semantics of DESIGN 3.4), the rely/guarantee meta-theorem for cooperative asyncio tasks (DESIGN 6, not mechanised), assumed contracts of asyncio/heapq, time/delay algebra axioms (each with provenance to a C08 obligation), static connection-table facts static_ok/trig_static (assumed here; established by the scenario.py contracts where built), non-real-time mode, z3/cvc5.'
-TECHNIQUE = "contract-based deductive verification (AST->z3 VCs on the real functions, global invariant, rely/guarantee at awaits)"
+LEVEL_NOTE = 'Proved for any number of simulators, any topology, any reply values and every interleaving, under the listed assumptions (evidence: assumptions, coverage.trusted_base). Trusted: pyvc encoder, the rely/guarantee meta-theorem, assumed contracts of asyncio/heapq, the time/delay algebra axioms (C08 provenance), static connection-table facts, z3/cvc5.'
+TECHNIQUE = 'contract-based deductive verification (AST->z3 VCs on the real functions, global invariant, rely/guarantee at awaits)'
 CLAIMED = True
-NA_REASON = "check under construction in this round"
+NA_REASON = ""
